@@ -467,7 +467,14 @@ func genC10(g GenCtx) interface{} {
 				sc.Acts = append(sc.Acts, TAct{Op: "settle"})
 			}
 		}
-		sc.Acts = append(sc.Acts, TAct{Op: "settle"}, apply(), TAct{Op: "close", Node: id, Async: true}, apply(), TAct{Op: "settle"})
+		if rng.Intn(2) == 0 {
+			sc.Acts = append(sc.Acts, TAct{Op: "settle"}, apply(), TAct{Op: "close", Node: id, Async: true}, apply(), TAct{Op: "settle"})
+		} else {
+			// ... or wakes up at that very moment and reads everything, while the
+			// overrun of the next event is being reported
+			sc.LogYield = true
+			sc.Acts = append(sc.Acts, TAct{Op: "settle"}, apply(), TAct{Op: "drain-racing", Node: id, Ms: rng.Intn(60)}, apply(), apply(), TAct{Op: "settle"})
+		}
 	}
 	sc.Acts = append(sc.Acts, TAct{Op: "check"})
 	// no starvation strategies here: a starved publisher overflows its own feed,
